@@ -120,6 +120,8 @@ def specs(tier):
 def run(ctx):
     for spec in specs(ctx.tier):
         explore.bfs(ctx, spec, max_depth=60, label=spec.name[4:])
+    from vlib.props import c03_sched
+    c03_sched.run(ctx, family="routing")
     c = ctx.cov
     c["exhaustive"] = all(r["frontier_exhausted"] for r in c["runs"])
     c["probe_bursts"] = sum(r["probes"] for r in c["runs"])
@@ -131,6 +133,9 @@ def run(ctx):
 
 
 def replay(ctx, case):
+    if case.get("sched"):
+        from vlib.props import c03_sched
+        return c03_sched.replay(ctx, case)
     name = case["spec"][4:]
     spec = None
     for tier in ("quick", "thorough"):
